@@ -291,5 +291,27 @@ _WAVE4 = {
 for _k, _v in _WAVE4.items():
     PROPS[_k]["rule"] += "; fourth wave: " + _v
 
+_WAVE6 = {
+    "C01": "an endpoint writing while its own reader is inside an inbound chunk header (harness-owned schedule), messages of 2^24-2 and 2^24-1 payload bytes",
+    "C02": "messages received earlier decoded again between reads, bufio.Reader transports",
+    "C03": "call packets marshalling to exactly 2^16-1 .. 2^24-1 bytes, command names differing from the known ones in case / spaces / NULs",
+    "C04": "responses nobody waits for read as plain messages by the typed reader",
+    "C05": "results overwritten by the application (spare capacity included) before the same trees marshal again, property names of 32767..65535 bytes",
+    "C06": "results overwritten by the application, also those of the value Discovery hands out for every marker byte",
+    "C07": "chunk streams read by a client with requests outstanding (matched responses), JSON JWE without a protected header validly sealed by an independent AES-GCM",
+    "C09": "every body size 0..4200, bufio.Reader transports",
+    "C10": "payloads that are Opus identification/comment headers or start with container four-character codes; AVC trait + composition time spelling one",
+    "C11": "a configuration written through the pointer ASC() returns (the model follows what ASC() reports next)",
+    "C12": "records decoded into zero-value receivers, 0..3 SPS-extension NAL units, results overwritten by the application before the same values marshal again",
+    "C14": "bufio.Reader transports",
+    "C15": "the data writer sets / clears its write deadline before messages",
+    "C16": "wrong keys of the same kind: EC keys on every other curve, symmetric keys one byte shorter / longer (an error, not a panic)",
+    "C17": "comments of 65530..140001 bytes before / inside / after a value and at the end of input, the rest of a document drained with io.Copy after a first Read, bufio.Reader transports",
+    "C19": "errors with a code or status of their own wrapping (Unwrap) an error of another kind, POST requests whose form body has a field named callback",
+    "C20": "gaps of 2^31-1 ms .. 365 days between observations, a meter closed without ever having been started",
+}
+for _k, _v in _WAVE6.items():
+    PROPS[_k]["rule"] += "; sixth round: " + _v
+
 NOT_APPLICABLE = {}
 HOOK_COMMITS = ["ba4d95f68dd5a0290f21f6bb6c969f905e9412da", "a27187fa8bc3d23076469a07766dcee96b1efc22"]
